@@ -7,7 +7,7 @@ from hypothesis import strategies as st
 from .. import gen, norm, states, walk
 from ..common import lib
 from ..core import require
-from ..spec import kinds, relabeled
+from ..spec import kinds, relabeled, walk_spec
 
 ID = "C07"
 BUDGET = {"quick": (4, 400), "thorough": (16, 5000)}
@@ -15,7 +15,7 @@ TECHNIQUE = "property-based differential testing (Hypothesis): a += b vs a + b, 
 RULE = (
     "Generated: a tree spec, two compatible reachable states a and b (each from fills, optional merge / scaling / "
     "copy; empty sides; disjoint and overlapping sparse key sets; b optionally built with its Label keys in the "
-    "opposite order; b optionally an immutable JSON reload, which is what "
+    "opposite order and / or declared with plain Count() where a has Count(transform); b optionally an immutable JSON reload, which is what "
     "fill.sparksql merges with `self += Factory.fromJson(...)`), and a continuation of further fills of a and of b.  "
     "Oracle: ref = a + b first; `a += b` returns a itself; a's document equals ref's bit for bit; b's document is "
     "unchanged; the sets of fillable-node / container identities of a and b are disjoint; after the continuation a "
@@ -32,19 +32,42 @@ ASSUMPTIONS = [
 def strategy(tier):
     thorough = tier == "thorough"
     opts = gen.TreeOpts(max_depth=4 if thorough else 3, count_transforms=True)
+    topts = gen.TreeOpts(max_depth=4 if thorough else 3, count_transforms=True, transform_odds=2, count_bias=5)
 
     @st.composite
     def cases(draw):
-        spec, focus = draw(gen.specs_and_focus(opts, 6))
+        spec, focus = draw(gen.specs_and_focus(topts if draw(st.integers(0, 3)) == 0 else opts, 6))
+        if draw(st.integers(0, 5)) == 0:
+            # sparse containers whose value template is a Count with a transform: bins taken over from b must follow
+            # a's declaration (b may well be declared with plain counts, or come back from JSON)
+            hit = False
+            for _, node in list(walk_spec(spec)):
+                if node["k"] in ("Categorize", "SparselyBin") and node["value"]["k"] == "Count":
+                    node["value"] = {"k": "Count", "transform": draw(st.sampled_from(("sq", "half")))}
+                    hit = True
+            if not hit:
+                extra = {"k": "Categorize", "q": {"t": "cat", "col": "s", "fl": "lambda"}, "value": {"k": "Count", "transform": draw(st.sampled_from(("sq", "half")))}}
+                spec = {"k": "UntypedLabel", "pairs": {"main": spec, "extra": extra}}
         ra = draw(gen.recipes(spec, max_rows=12, reload_ok=True, focus=focus))
         rb = draw(gen.recipes(spec, max_rows=12, reload_ok=True, focus=focus))
         xa, _ = draw(gen.streams(spec, max_rows=5, focus=focus))
         xb, _ = draw(gen.streams(spec, max_rows=5, focus=focus))
         # b may come from a tree whose Label keys were given in the opposite order (same aggregator: children are matched by key)
         b_relabel = draw(st.integers(0, 2)) == 0
-        return {"spec": spec, "a": ra, "b": rb, "more_a": [[r, w] for r, w in xa], "more_b": [[r, w] for r, w in xb], "b_relabel": b_relabel}
+        # ... or declared with plain Count() where a has Count(transform): what comes back from JSON looks like that
+        b_plain = draw(st.integers(0, 2)) == 0
+        return {"spec": spec, "a": ra, "b": rb, "more_a": [[r, w] for r, w in xa], "more_b": [[r, w] for r, w in xb], "b_relabel": b_relabel, "b_plain": b_plain}
 
     return cases()
+
+
+def plain_counts(spec):
+    """The same tree declared with plain Count() everywhere (mergeable with the original: a transform is not content)."""
+    if isinstance(spec, dict):
+        return {k: plain_counts(v) for k, v in spec.items() if not (spec.get("k") == "Count" and k == "transform")}
+    if isinstance(spec, list):
+        return [plain_counts(v) for v in spec]
+    return spec
 
 
 def doc(h):
@@ -56,6 +79,8 @@ def check(case):
     spec = case["spec"]
     a = states.realize(spec, case["a"])
     spec_b = relabeled(spec) if case.get("b_relabel") else spec
+    if case.get("b_plain"):
+        spec_b = plain_counts(spec_b)
     b = states.realize(spec_b, case["b"])
     da0, db0 = doc(a), doc(b)
     ref = a + b
@@ -76,7 +101,9 @@ def check(case):
     # continuation
     b_mutable = not case["b"].get("reload")
     if not case["a"].get("reload"):  # an immutable left operand can be merged into, but not filled
-        for row, w in case["more_a"]:
+        # b's own records come again with another weight: they land in exactly the bins / categories a took over from b
+        again = [(row, 0.5) for row, w in states.stream_of(case["b"])[:6] if w == w and w > 0]
+        for row, w in [(r_, w_) for r_, w_ in case["more_a"]] + again:
             a.fill(row, w)
             ref.fill(row, w)
     if b_mutable:
